@@ -85,6 +85,15 @@ Theorem c07_history_independent_of_source :
 Proof. exact (history_independent_of_flag _ eq_refl). Qed.
 Print Assumptions c07_history_independent_of_source.
 
+(* sharper: an operation depends on the history only through [relevant_prefix] — a load, an engine.parse and an
+   expression evaluation on nothing at all, a classification on the last load only, engine.match on the last
+   engine.parse only.  This is the comparison the harness makes (fresh interpreter = relevant prefix + operation). *)
+Theorem c07_depends_only_on_relevant_prefix :
+  forall (W : world) (h : list (op W)) (o : op W),
+    out_after W true h o = out_after W true (relevant_prefix W h o) o.
+Proof. exact out_after_relevant. Qed.
+Print Assumptions c07_depends_only_on_relevant_prefix.
+
 (* what holds for BOTH variants (with or without the reset): the last load of h is a successful .rules load
    or no load of h is one; or o is not a classification through normalize_merchant *)
 Theorem c07_history_independent_partial :
